@@ -286,7 +286,15 @@ def fuzz_stage(pid, ctx, cases):
     mult = 6 if ctx.tier == "thorough" else 1
     work = os.path.join(core.WORK, "fuzz", pid)
     os.makedirs(work, exist_ok=True)
+    # which kinds of input can reach the changed files at all
+    reach = {"socketwrapper.py": {"sock"}, "rtcmreader.py": {"frame", "stream", "sock"}, "rtcmmessage.py": {"msg", "frame", "stream", "sock"}}
+    relevant = set()
+    for f in changed:
+        relevant |= reach.get(f, {"msg", "frame", "stream", "sock"})
     for mode in FUZZ_MODES.get(pid, []):
+        if mode not in relevant:
+            info["modes"][mode] = {"note": "skipped: the changed files are not reached by this kind of input"}
+            continue
         seeds = [fuzz_ops.from_line(mode, c["line"]) for c in cases]
         seeds = [s for s in seeds if s is not None]
         ctx.rng.shuffle(seeds)
